@@ -141,8 +141,12 @@ static int on_sigpipe_readable(Tickit *t, TickitEventFlags flags, void *info, vo
     sigprocmask(SIG_SETMASK, &orig, NULL);
   }
 
+  /* as in tickit_evloop_invoke_sigwatches(): a callback may cancel any signal
+   * watch, its own included, so the cursor lives in t */
   TickitWatch *this;
-  for(this = t->signals; this; this = this->next) {
+  for(this = t->signals; this; this = t->next_sigwatch) {
+    t->next_sigwatch = this->next;
+
     if(sigismember(&pending, this->signal.signum))
       (*this->fn)(this->t, TICKIT_EV_FIRE, NULL, this->user);
   }
